@@ -206,6 +206,8 @@ macro_rules! set_impl {
                             });
                             info = json!({"rendered": rendered, "outside": outside.borrow().clone()});
                             let ctx = slot.lock().unwrap().expect("children did not run");
+                            // later operations that name this handle as parent run "inside the provider's children"
+                            owner.with(|| provide_context(ctx));
                             ctx
                         };
                         handles.borrow_mut().push(ctx_handle(ctx, owner));
